@@ -1,412 +1,49 @@
-"""Unit C19_motor of property C19: host Servo and DCMotor invariants under every history.
+"""Unit C19_motor of property C19: host DCMotor invariants under every history.
 
-run_unit(ctx) = correspondence (extracted Coq model vs the real classes, per op: outcome,
-return value, full state snapshot, sleeps, level events) + property oracle evaluated on the
-real objects after every op + replay of this unit's listed findings.
+run_unit(ctx) = correspondence (extracted Coq model coq/Wire/C19_motorW.v vs the real class, per
+op: outcome, return value, every attribute, recorded sleeps, level events, the ghost "last
+command") + property oracle evaluated on the real object after every op + an
+implementation-only stream of IEEE specials / strings / huge ints inside the guard (oracle:
+invariant + atomicity of failing calls, real Reduino.Utils.sleep validation active) + replay of
+this unit's listed findings.
 The property module harness/props/c19.py calls run_unit and merges the coverage it returns.
 """
 from __future__ import annotations
 
+import json
+import math
 from fractions import Fraction as Fr
 
 from harness import common as C
+from harness import c19_sm as S
 
 UNIT = "C19_motor"
 
 META_PART = (
-    "Servo/DCMotor (unit C19_motor): theorems Inv_servo, C19_servo_roundtrip, Inv_motor, "
-    "C19_invert_involution, C19_ramp, C19_run_for, C19_*_failed_call_atomic (coq/Props/C19_motor.v) "
-    "are proved by induction over all op sequences from every accepted constructor call, about Gallina "
-    "models of Servo.py / DCMotor.py over exact rationals (constants _RAMP_STEPS and the constructor "
-    "defaults regenerated from the source on every run); the extracted models are run against the "
-    "real classes on exhaustive op pairs from 10+11 seed states and seeded random sequences (<= 15 ops), "
-    "comparing outcome, return value, every attribute, recorded sleeps and level events per op."
+    "DCMotor (unit C19_motor): C19_motor_inv_reachable / C19_motor_reachable (|speed|<=1, applied = speed negated when inverted, "
+    "mode drive iff applied<>0 else brake iff the last successful command was stop/run_for, after every history from every "
+    "accepted constructor call), C19_motor_ghost_step/_run, C19_invert_involution, C19_ramp (20 monotone steps ending on the "
+    "clamped target, sleeps summing to exactly the duration), C19_run_for (one sleep of exactly duration_ms, ends braked), "
+    "C19_motor_failed_call_atomic, C19_motor_raises, C19_motor_set_speed/_backward/_stop_coast (coq/Props/C19_motor.v) are "
+    "proved for all arguments (int/float/bool/non-number) and histories about a Gallina model of DCMotor.py over exact "
+    "rationals (_RAMP_STEPS and the default of backward() regenerated from the source on every run); the extracted model is run "
+    "against the real class on every op of a speeds x durations alphabet from 10 seed states, exhaustive op pairs, a "
+    "constructor table and seeded random histories, comparing outcome, return value, every attribute, recorded sleeps and "
+    "level events per op."
 )
 
-
-class _Absent:
-    def __repr__(self):
-        return "ABSENT"
-
-
-ABSENT = _Absent()      # an omitted optional argument
-
-TOL = 1e-9
+H = Fr(1, 2)
+EPS = Fr(1, 1024)
+NAN, INF = float("nan"), float("inf")
 
 
 # --------------------------------------------------------------------------
-# values: int / bool / Fraction (a float) / None (a non-number)
+# property oracle on the real object (independent of the model)
 # --------------------------------------------------------------------------
 
-def W(v):
-    """abstract value -> wire pynum"""
-    if isinstance(v, bool):
-        return [2, v]
-    if isinstance(v, int):
-        return [0, v]
-    if isinstance(v, Fr):
-        return [1, v]
-    if v is None:
-        return [3]
-    raise TypeError(repr(v))
-
-
-def Wopt(v):
-    return [] if v is ABSENT else [W(v)]
-
-
-def J(v):
-    """abstract value -> tagged JSON value for the implementation runner"""
-    if v is ABSENT:
-        return None
-    if isinstance(v, bool):
-        return ["b", v]
-    if isinstance(v, int):
-        return ["i", v]
-    if isinstance(v, Fr):
-        return ["f", v.numerator, v.denominator]
-    if v is None:
-        return ["o"]
-    raise TypeError(repr(v))
-
-
-def show(v):
-    if v is ABSENT:
-        return "<omitted>"
-    if isinstance(v, Fr):
-        return repr(float(v))
-    return repr(v)
-
-
-def num(v):
-    """numeric value of an abstract scalar (None if not a number)"""
-    if v is None or v is ABSENT:
-        return None
-    return Fr(int(v)) if isinstance(v, (bool, int)) else v
-
-
-SERVO_OPS = {"write": 0, "write_us": 1, "read": 2, "read_us": 3}
-MOTOR_OPS = {"set_speed": 0, "backward": 1, "stop": 2, "coast": 3, "invert": 4, "ramp": 5, "run_for": 6,
-             "get_speed": 7, "get_applied_speed": 8, "is_inverted": 9, "get_mode": 10}
-MODES = ["coast", "drive", "brake"]
-KINDS = ["ValueError", "TypeError"]
-
-
-def wire_case(case):
-    cls, ctor, ops = case
-    table = SERVO_OPS if cls == "servo" else MOTOR_OPS
-    wops = [[table[o[0]]] + [W(a) for a in o[1:]] for o in ops]
-    if cls == "servo":
-        return [0, [Wopt(a) for a in ctor], wops]
-    return [1, [W(a) for a in ctor], wops]
-
-
-def json_case(case):
-    cls, ctor, ops = case
-    return {"cls": cls, "ctor": [J(a) for a in ctor], "ops": [[o[0]] + [J(a) for a in o[1:]] for o in ops]}
-
-
-def show_case(case):
-    cls, ctor, ops = case
-    if cls == "servo":
-        names = ["pin", "min_angle", "max_angle", "min_pulse_us", "max_pulse_us"]
-        head = "Servo(" + ", ".join(f"{n}={show(a)}" for n, a in zip(names, ctor) if a is not ABSENT) + ")"
-    else:
-        head = "DCMotor(" + ", ".join(show(a) for a in ctor) + ")"
-    return [head] + [f".{o[0]}(" + ", ".join(show(a) for a in o[1:]) + ")" for o in ops]
-
-
-# --------------------------------------------------------------------------
-# normal forms of outputs
-# --------------------------------------------------------------------------
-
-def m_q(w):
-    # the model's exact rational, rounded once to binary64 (error 1e-16, tolerance is 1e-9; 0 stays 0)
-    return ("f", w[0] / w[1])
-
-
-def m_pynum(w):
-    t = w[0]
-    if t == 0:
-        return ("i", w[1])
-    if t == 1:
-        return m_q(w[1])
-    if t == 2:
-        return ("b", bool(w[1]))
-    return ("o",)
-
-
-def i_val(t):
-    k = t[0]
-    if k == "f":
-        return ("f", t[1] / t[2])       # exact: the runner sends float.as_integer_ratio()
-    if k == "i":
-        return ("i", t[1])
-    if k == "b":
-        return ("b", bool(t[1]))
-    if k == "o":
-        return ("o",)
-    if k == "s":
-        return ("s", t[1])
-    if k == "t":
-        return ("t", tuple(i_val(x) for x in t[1]))
-    return ("?", t[1])
-
-
-def close(a: float, b: float) -> bool:
-    return abs(a - b) <= TOL * max(1, abs(a), abs(b))
-
-
-def same(a, b) -> bool:
-    """ints, bools, strings, None exact; floats to 1e-9 relative + absolute"""
-    if a[0] != b[0]:
-        return False
-    if a[0] == "f":
-        return close(a[1], b[1])
-    if a[0] == "t":
-        return len(a[1]) == len(b[1]) and all(same(x, y) for x, y in zip(a[1], b[1]))
-    return a == b
-
-
-def m_servo_snap(w):
-    return {"pin": m_pynum(w[0]), "_min_angle": m_q(w[1]), "_max_angle": m_q(w[2]), "_min_pulse": m_q(w[3]),
-            "_max_pulse": m_q(w[4]), "_current_angle": m_q(w[5]), "_current_pulse": m_q(w[6])}
-
-
-def m_motor_snap(w):
-    return {"pins": ("t", tuple(m_pynum(x) for x in w[0])), "_speed": m_q(w[1]), "_inverted": ("b", bool(w[2])),
-            "_mode": ("s", MODES[w[3]]), "_applied_speed": m_q(w[4])}
-
-
-def m_ret(w):
-    t = w[0]
-    if t == 0:
-        return ("o",)
-    if t == 1:
-        return m_q(w[1])
-    if t == 2:
-        return ("b", bool(w[1]))
-    return ("s", MODES[w[1]])
-
-
-def m_events(cls, w):
-    out = []
-    for e in w:
-        if cls == "servo":
-            out.append(("lvl", m_q(e[1]), m_q(e[2])))
-        elif e[0] == 0:
-            out.append(("lvl", m_q(e[1]), m_q(e[2]), ("s", MODES[e[3]])))
-        else:
-            out.append(("sleep", m_q(e[1])))
-    return out
-
-
-def i_events(evs):
-    out = []
-    for e in evs:
-        if e[0] == "sleep":
-            v = i_val(e[1])
-            if v[0] in ("i", "b"):          # run_for hands its argument to sleep unconverted
-                v = ("f", float(int(v[1])))
-            out.append(("sleep", v))
-        else:
-            out.append(("lvl",) + tuple(i_val(x) for x in e[1:]))
-    return out
-
-
-def zero_noise(model_applied, impl_applied, model_mode, impl_mode) -> bool:
-    """The one place where exact rationals and binary64 may legitimately take different branches:
-    the model's applied speed is exactly 0 (mode coast) while the float computation left a non-zero
-    residue below 1e-9 (mode drive), e.g. 0.1 + (-0.1/20)*20.  The property allows it ('to float rounding')."""
-    return (model_mode == ("s", "coast") and impl_mode == ("s", "drive") and model_applied[0] == "f"
-            and impl_applied[0] == "f" and model_applied[1] == 0 and 0 < abs(impl_applied[1]) <= TOL)
-
-
-# --------------------------------------------------------------------------
-# correspondence
-# --------------------------------------------------------------------------
-
-class Stats:
-    def __init__(self):
-        self.ops = {}
-        self.outcomes = {}
-        self.ctor = {}
-        self.lengths = {}
-        self.nontrivial = set()
-        self.steps = 0
-        self.cases = 0
-        self.zero_noise = 0
-        self.oracle_checks = 0
-        self.streams = {}
-
-    def bump(self, d, k, n=1):
-        d[k] = d.get(k, 0) + n
-
-
-def compare_case(ctx, st: Stats, case, m, r):
-    """model output m (wire) vs implementation output r (JSON) for one case; reports the first difference."""
-    cls = case[0]
-    label = show_case(case)
-
-    def bad(what, mo, io):
-        ctx.disagree(f"{cls}: {what}", replayable(case), mo, io)
-        return False
-
-    if m == [2]:
-        return bad("model could not decode the case (harness bug)", m, None)
-    mc = m[0]
-    if mc[0] == 1:
-        if r["ctor"][0] != "raise" or r["ctor"][1] != KINDS[mc[1]]:
-            return bad("constructor outcome", "raises " + KINDS[mc[1]], r["ctor"])
-        return True
-    if r["ctor"][0] != "ok":
-        return bad("constructor outcome", "accepts", r["ctor"])
-    snap_of = m_servo_snap if cls == "servo" else m_motor_snap
-    msnap = snap_of(mc[1])
-    isnap = {k: i_val(v) for k, v in r["ctor"][1].items()}
-    if set(msnap) != set(isnap):
-        return bad("attribute set after construction", sorted(msnap), sorted(isnap))
-    for k in msnap:
-        if not same(msnap[k], isnap[k]):
-            return bad(f"attribute {k} after construction", msnap[k], isnap[k])
-    if len(m) - 1 != len(r["steps"]):
-        return bad("number of steps", len(m) - 1, len(r["steps"]))
-    ghost = 0
-    for i, (ms, rs) in enumerate(zip(m[1:], r["steps"])):
-        op = case[2][i]
-        at = f"step {i} {label[i + 1]}"
-        mres = "ok" if ms[0] == 0 else "raise"
-        if mres != rs["res"]:
-            return bad(f"{at}: outcome", (mres, m_ret(ms[1]) if ms[0] == 0 else KINDS[ms[1]]), (rs["res"], rs["ret"]))
-        msnap = snap_of(ms[2])
-        isnap = {k: i_val(v) for k, v in rs["snap"].items()}
-        noisy = cls == "motor" and zero_noise(msnap["_applied_speed"], isnap.get("_applied_speed", ("?",)),
-                                              msnap["_mode"], isnap.get("_mode", ("?",)))
-        if ms[0] == 1:
-            if rs["ret"] != KINDS[ms[1]]:
-                return bad(f"{at}: exception kind", KINDS[ms[1]], rs["ret"])
-        else:
-            mr, ir = m_ret(ms[1]), i_val(rs["ret"])
-            if not same(mr, ir) and not (noisy and op[0] == "get_mode"):
-                return bad(f"{at}: return value", mr, ir)
-        if set(msnap) != set(isnap):
-            return bad(f"{at}: attribute set", sorted(msnap), sorted(isnap))
-        for k in msnap:
-            if not same(msnap[k], isnap[k]) and not (noisy and k == "_mode"):
-                return bad(f"{at}: attribute {k}", msnap[k], isnap[k])
-        mev, iev = m_events(cls, ms[3]), i_events(rs["events"])
-        if len(mev) != len(iev):
-            return bad(f"{at}: number of events (sleeps + level events)", mev, iev)
-        for a, b in zip(mev, iev):
-            ok = a[0] == b[0] and len(a) == len(b) and all(same(x, y) for x, y in zip(a[1:], b[1:]))
-            if not ok and cls == "motor" and a[0] == "lvl" == b[0] and len(b) == 4 and same(a[1], b[1]) \
-                    and same(a[2], b[2]) and zero_noise(a[2], b[2], a[3], b[3]):
-                ok = True
-                st.zero_noise += 1
-            if not ok:
-                return bad(f"{at}: event", a, b)
-        if noisy:
-            st.zero_noise += 1
-        if cls == "motor":
-            # ghost "last successful command" of the model vs the one derived from the real outcomes
-            if rs["res"] == "ok":
-                if op[0] in ("stop", "run_for"):
-                    ghost = 1
-                elif op[0] in ("set_speed", "backward", "coast", "invert", "ramp"):
-                    ghost = 0
-            if ms[2][5] != ghost:
-                return bad(f"{at}: ghost last-command of the model vs history", ms[2][5], ghost)
-    return True
-
-
-# --------------------------------------------------------------------------
-# property oracle on the real objects (independent of the model)
-# --------------------------------------------------------------------------
-
-def fnum(v):
-    """numeric value of an abstract scalar as a float (exact: arguments are dyadic), None for a non-number"""
-    q = num(v)
-    return None if q is None else q.numerator / q.denominator
-
-
-def fval(t):
-    """float-valued observation -> float (None if it is not a finite float)"""
-    v = i_val(t)
-    return v[1] if v[0] == "f" else None
-
-
-def le(a, b, scale=1):
-    return a <= b + TOL * max(1, abs(a), abs(b), scale)
-
-
-def replayable(case):
-    return {"calls": show_case(case), "json": json_case(case)}
-
-
-def servo_oracle(ctx, st, case, r):
-    """C19 clauses for Servo on the values the real object reports after every call."""
-    label = replayable(case)
-    calls = label["calls"]
-    if r["ctor"][0] != "ok":
-        return
-    ctor = case[1]
-    snap0 = r["ctor"][1]
-    # configured bounds: the explicit arguments (as floats); for omitted ones what the constructor stored
-    conf = []
-    for a, k in zip(ctor[1:], ["_min_angle", "_max_angle", "_min_pulse", "_max_pulse"]):
-        conf.append(fnum(a) if a is not ABSENT else fval(snap0[k]))
-    mina, maxa, minp, maxp = conf
-    if None in conf or not (mina < maxa and minp < maxp):
-        ctx.fail("Servo constructor accepted bounds that are not min < max", label, "ValueError/TypeError", "object built", key="servo-ctor")
-        return
-    sa, sp = max(abs(mina), abs(maxa)), max(abs(minp), abs(maxp))
-
-    def inv(get, at):
-        st.oracle_checks += 1
-        a, p = fval(get["read"]), fval(get["read_us"])
-        if a is None or p is None:
-            ctx.fail(f"{at}: read()/read_us() is not a finite float", label, "floats", get, key="servo-nonfloat")
-            return False
-        if not (le(mina, a, sa) and le(a, maxa, sa)):
-            ctx.fail(f"{at}: angle outside its configured bounds", label, f"{float(mina)} <= angle <= {float(maxa)}", float(a), key="servo-angle-bounds")
-            return False
-        if not (le(minp, p, sp) and le(p, maxp, sp)):
-            ctx.fail(f"{at}: pulse outside its configured bounds", label, f"{float(minp)} <= pulse <= {float(maxp)}", float(p), key="servo-pulse-bounds")
-            return False
-        want_p = minp + (a - mina) / (maxa - mina) * (maxp - minp)
-        want_a = mina + (p - minp) / (maxp - minp) * (maxa - mina)
-        if abs(p - want_p) > TOL * max(1, sp) or abs(a - want_a) > TOL * max(1, sa):
-            ctx.fail(f"{at}: angle and pulse do not correspond under the configured linear map", label,
-                     {"pulse(angle)": float(want_p), "angle(pulse)": float(want_a)}, {"angle": float(a), "pulse": float(p)}, key="servo-map")
-            return False
-        return True
-
-    if not inv(r["get0"], "after construction"):
-        return
-    prev = snap0
-    for i, rs in enumerate(r["steps"]):
-        op = case[2][i]
-        at = f"step {i} {calls[i + 1]}"
-        if rs["res"] == "raise" and rs["snap"] != prev:
-            ctx.fail(f"{at}: raised {rs['ret']} but changed the object", label, prev, rs["snap"], key="servo-atomic")
-            return
-        if not inv(rs["get"], at):
-            return
-        if op[0] in ("write", "write_us"):
-            v = fnum(op[1])
-            lo, hi, g = (mina, maxa, "read") if op[0] == "write" else (minp, maxp, "read_us")
-            if v is not None and lo <= v <= hi:
-                got = fval(rs["get"][g])
-                if not close(got, v):
-                    ctx.fail(f"{at}: {g}() after {op[0]}({show(op[1])}) with an in-range argument does not return it", label,
-                             float(v), {"outcome": [rs["res"], rs["ret"]], g: float(got)}, key="servo-roundtrip")
-                    return
-        prev = rs["snap"]
-
-
-def motor_oracle(ctx, st, case, r):
+def oracle(ctx, st, case, r, safety_only=False):
     """C19 clauses for DCMotor on the values the real object reports after every call."""
-    label = replayable(case)
+    label = S.replayable(case)
     calls = label["calls"]
     if r["ctor"][0] != "ok":
         return
@@ -416,16 +53,16 @@ def motor_oracle(ctx, st, case, r):
 
     def inv(get, at):
         st.oracle_checks += 1
-        s, a = fval(get["get_speed"]), fval(get["get_applied_speed"])
-        invd, mode = i_val(get["is_inverted"]), i_val(get["get_mode"])
+        s, a = S.fval(get["get_speed"]), S.fval(get["get_applied_speed"])
+        invd, mode = S.i_val(get["is_inverted"]), S.i_val(get["get_mode"])
         if s is None or a is None or invd[0] != "b" or mode[0] != "s":
-            ctx.fail(f"{at}: getters do not return float/float/bool/str", label, "typed getters", get, key="motor-types")
+            ctx.fail(f"{at}: getters do not return finite float / finite float / bool / str", label, "typed getters", get, key="motor-types")
             return False
-        if not le(abs(s), 1.0):
+        if not S.le(abs(s), 1.0):
             ctx.fail(f"{at}: |speed| > 1", label, "|speed| <= 1", float(s), key="motor-speed-bound")
             return False
         want = -s if invd[1] else s
-        if not close(a, want):
+        if not S.close(a, want):
             ctx.fail(f"{at}: applied speed is not the speed{' negated' if invd[1] else ''} (inverted={invd[1]})", label, float(want), float(a), key="motor-applied")
             return False
         want_mode = "drive" if a != 0 else ("brake" if ghost_stop else "coast")
@@ -451,14 +88,18 @@ def motor_oracle(ctx, st, case, r):
                 ghost_stop = False
         if not inv(rs["get"], at):
             return
-        evs = i_events(rs["events"])
+        if op[0] in ("get_speed", "get_applied_speed", "is_inverted", "get_mode") and rs["snap"] != prev_snap:
+            ctx.fail(f"{at}: a getter changed the object", label, prev_snap, rs["snap"], key="motor-getter-pure")
+            return
+        evs = S.i_events(rs["events"])
         sleeps = [e[1][1] for e in evs if e[0] == "sleep" and e[1][0] == "f"]
-        if ok and op[0] == "ramp":
-            target = max(-1.0, min(1.0, fnum(op[1])))
-            dur = fnum(op[2])
+        numeric = all(S.fnum(a) is not None for a in op[1:])
+        if ok and op[0] == "ramp" and numeric and not safety_only:
+            target = max(-1.0, min(1.0, S.fnum(op[1])))
+            dur = S.fnum(op[2])
             speeds = [e[1][1] for e in evs if e[0] == "lvl"]
-            start = fval(prev_get["get_speed"])
-            end = fval(rs["get"]["get_speed"])
+            start = S.fval(prev_get["get_speed"])
+            end = S.fval(rs["get"]["get_speed"])
             if len(speeds) != 20:
                 ctx.fail(f"{at}: ramp applied {len(speeds)} speed steps", label, 20, len(speeds), key="ramp-steps")
                 return
@@ -470,25 +111,25 @@ def motor_oracle(ctx, st, case, r):
                 ctx.fail(f"{at}: ramp steps are not monotone from the start speed towards the target", label,
                          "monotone", [float(x) for x in seq], key="ramp-monotone")
                 return
-            if not close(end, target) or not close(speeds[-1], target):
+            if not S.close(end, target) or not S.close(speeds[-1], target):
                 ctx.fail(f"{at}: ramp does not end at the clamped target", label, float(target), float(end), key="ramp-target")
                 return
-            if not le(sum(sleeps), dur):
-                ctx.fail(f"{at}: ramp slept longer than the requested duration", label, float(dur), float(sum(sleeps)), key="ramp-sleep")
+            if len(sleeps) != len([e for e in evs if e[0] == "sleep"]) or not S.le(sum(sleeps), dur):
+                ctx.fail(f"{at}: ramp slept longer than the requested duration", label, float(dur), [float(x) for x in sleeps], key="ramp-sleep")
                 return
-        if ok and op[0] == "run_for":
-            dur = fnum(op[1])
-            if len(sleeps) != len([e for e in evs if e[0] == "sleep"]) or not close(sum(sleeps), dur):
+        if ok and op[0] == "run_for" and numeric and not safety_only:
+            dur = S.fnum(op[1])
+            if len(sleeps) != len([e for e in evs if e[0] == "sleep"]) or not S.close(sum(sleeps), dur):
                 ctx.fail(f"{at}: run_for did not sleep exactly duration_ms", label, float(dur), [float(x) for x in sleeps], key="run_for-sleep")
                 return
-            if i_val(rs["get"]["get_mode"])[1] != "brake" or fval(rs["get"]["get_speed"]) != 0:
+            if S.i_val(rs["get"]["get_mode"])[1] != "brake" or S.fval(rs["get"]["get_speed"]) != 0:
                 ctx.fail(f"{at}: run_for did not end braked", label, {"mode": "brake", "speed": 0.0}, rs["get"], key="run_for-brake")
                 return
         if ok and op[0] == "invert" and i > 0 and case[2][i - 1][0] == "invert" and r["steps"][i - 1]["res"] == "ok":
             before = r["steps"][i - 2]["get"] if i >= 2 else r["get0"]
             now = rs["get"]
-            same_fields = all(same(i_val(before[g]), i_val(now[g])) for g in ("get_speed", "get_applied_speed", "is_inverted"))
-            m0, m1 = i_val(before["get_mode"])[1], i_val(now["get_mode"])[1]
+            same_fields = all(S.same(S.i_val(before[g]), S.i_val(now[g])) for g in ("get_speed", "get_applied_speed", "is_inverted"))
+            m0, m1 = S.i_val(before["get_mode"])[1], S.i_val(now["get_mode"])[1]
             if not same_fields or m1 != ("coast" if m0 == "brake" else m0):
                 ctx.fail(f"{at}: invert(); invert() did not restore the motor", label, before, now, key="invert-involution")
                 return
@@ -499,75 +140,18 @@ def motor_oracle(ctx, st, case, r):
 # generators
 # --------------------------------------------------------------------------
 
-H = Fr(1, 2)
-EPS = Fr(1, 1024)
-
-CALIBS = {
-    # name: (ctor args, (min_angle, max_angle, min_pulse, max_pulse) as numbers)
-    "default": ([ABSENT] * 5, (Fr(0), Fr(180), Fr(544), Fr(2400))),
-    "neg": ([3, -90, 90, 1000, 2000], (Fr(-90), Fr(90), Fr(1000), Fr(2000))),
-    "frac": ([ABSENT, Fr(21, 2), Fr(401, 4), Fr(1001, 2), 2500], (Fr(21, 2), Fr(401, 4), Fr(1001, 2), Fr(2500))),
-}
-
-SERVO_BAD_CTORS = [
-    [ABSENT, 180, 0, ABSENT, ABSENT], [ABSENT, 90, 90, ABSENT, ABSENT], [ABSENT, Fr(90), 90, ABSENT, ABSENT],
-    [ABSENT, None, ABSENT, ABSENT, ABSENT], [ABSENT, ABSENT, None, ABSENT, ABSENT], [ABSENT, None, None, ABSENT, ABSENT],
-    [ABSENT, ABSENT, ABSENT, 2400, 544], [ABSENT, ABSENT, ABSENT, 1000, 1000], [ABSENT, ABSENT, ABSENT, None, ABSENT],
-    [ABSENT, ABSENT, ABSENT, ABSENT, None], [ABSENT, 10, 5, None, ABSENT], [ABSENT, None, ABSENT, 2400, 544],
-    [ABSENT, True, False, ABSENT, ABSENT], [ABSENT, ABSENT, 0, ABSENT, ABSENT], [ABSENT, ABSENT, ABSENT, ABSENT, 544],
-    [ABSENT, 180, ABSENT, ABSENT, ABSENT], [ABSENT, ABSENT, ABSENT, Fr(2400), ABSENT],
-]
-SERVO_ODD_CTORS = [      # accepted, unusual argument types
-    [None, False, True, False, True], [True, ABSENT, 1, ABSENT, Fr(1089, 2)], [Fr(9, 2), -1, ABSENT, -1, ABSENT],
-    [ABSENT, Fr(-1, 8), Fr(1, 4), Fr(-1, 8), Fr(1, 4)], [ABSENT, 0, 1, 0, 1 << 20],
-]
-
-
-def as_int_if_whole(q):
-    return int(q) if q.denominator == 1 else q
-
-
-def servo_values(lo, hi):
-    """boundary alphabet for one axis: min, max, mid, min-eps, max+eps, +-1 outside, int/float variants, bools, None"""
-    mid = (lo + hi) / 2
-    vals = [lo, hi, mid, lo - EPS, hi + EPS, lo - 1, hi + 1, lo + EPS, hi - EPS, (lo + mid) / 2 + Fr(1, 8), True, False, None]
-    out = []
-    for v in vals:
-        out.append(v)
-        if isinstance(v, Fr) and v.denominator == 1 and v in (lo, hi, mid):
-            out.append(int(v))          # the same number as a Python int
-    return out
-
-
-def servo_alphabet(cal):
-    mina, maxa, minp, maxp = CALIBS[cal][1]
-    ops = [("write", v) for v in servo_values(mina, maxa)] + [("write_us", v) for v in servo_values(minp, maxp)]
-    return ops + [("read",), ("read_us",)]
-
-
-def servo_seeds():
-    out = []
-    for cal, (ctor, (mina, maxa, minp, maxp)) in CALIBS.items():
-        out.append((cal, ctor, []))
-        out.append((cal, ctor, [("write", (mina + maxa) / 2)]))
-        out.append((cal, ctor, [("write_us", maxp)]))
-    out.append(("default", CALIBS["default"][0], [("write", 180), ("write_us", Fr(2001, 2))]))
-    out.append(("neg", CALIBS["neg"][0], [("write_us", Fr(2501, 2)), ("write", None)]))
-    return out
-
-
 SPEEDS = [-2, Fr(-1), -H, -EPS, 0, EPS, H, Fr(1), 2, None, True]
 DURS = [-1, 0, 20, 100, Fr(5, 2)]
 DURS_X = DURS + [None, True]
 
-MOTOR_PINS = [2, 3, 5]
-MOTOR_CTORS = [
+PINS = [2, 3, 5]
+CTORS = [
     [2, 3, 5], [2, 2, 5], [2, 3, 2], [5, 3, 3], [True, 1, 5], [False, 0, 5], [True, False, 5], [0, 1, 2],
     [Fr(2), 3, 5], [2, None, 5], [2, 3, None], [2, 2, None], [None, None, None], [-1, -2, -3], [1 << 40, 3, 5],
-    [2, 3, Fr(5, 2)], [True, True, Fr(1)],
+    [2, 3, Fr(5, 2)], [True, True, Fr(1)], [1, True, 7], [7, 0, False], [-1, 1, True], [3, 3, 3], [Fr(3), Fr(3), 3],
 ]
 
-MOTOR_QUICK = (
+QUICK = (
     [("set_speed", v) for v in (-2, -H, -EPS, 0, H, Fr(1), None, True)]
     + [("backward",), ("backward", H), ("backward", -2), ("backward", None)]
     + [("stop",), ("coast",), ("invert",)]
@@ -576,8 +160,8 @@ MOTOR_QUICK = (
     + [("get_speed",), ("get_applied_speed",), ("is_inverted",), ("get_mode",)]
 )
 
-MOTOR_FULL = (
-    [("set_speed", v) for v in SPEEDS + [False, Fr(0), Fr(5, 2)]]
+FULL = (
+    [("set_speed", v) for v in SPEEDS + [False, Fr(0), Fr(5, 2), Fr(1) + EPS, Fr(-1) - EPS, Fr(1) - EPS]]
     + [("backward",)] + [("backward", v) for v in SPEEDS]
     + [("stop",), ("coast",), ("invert",)]
     + [("ramp", t, d) for t in SPEEDS for d in DURS_X]
@@ -585,33 +169,33 @@ MOTOR_FULL = (
     + [("get_speed",), ("get_applied_speed",), ("is_inverted",), ("get_mode",)]
 )
 
-MOTOR_SEEDS = [
+SEEDS = [
     [], [("set_speed", H)], [("set_speed", -1)], [("invert",)], [("invert",), ("set_speed", H)],
     [("set_speed", H), ("stop",)], [("set_speed", H), ("coast",)], [("set_speed", EPS)],
     [("invert",), ("run_for", 20, 1)], [("ramp", Fr(1), 20)],
 ]
 
 
-def rand_motor_value(rng, pool_in, pool_edge, pool_bad):
+def rand_value(rng, pool_in, pool_edge, pool_bad):
     x = rng.random()
     return rng.choice(pool_in if x < 0.7 else pool_edge if x < 0.9 else pool_bad)
 
 
-def random_motor_seq(rng):
+def random_seq(rng):
     n = rng.randint(3, 15)
     sp_in = [Fr(k, 8) for k in range(-8, 9)] + [Fr(k, 64) for k in (-63, -1, 1, 63)]
     sp_edge = [-2, Fr(-1), Fr(1), 2, -EPS, EPS, 0, Fr(0), True, False, Fr(5, 4), Fr(-9, 8)]
     sp_bad = [None]
     du_in = [0, 20, 100, Fr(5, 2), 1, 40, Fr(1, 4), 1000]
     du_edge = [0, Fr(0), True, False, Fr(1, 1024)]
-    du_bad = [-1, None, Fr(-1, 2), -20]
+    du_bad = [-1, None, Fr(-1, 2), -20, Fr(-1, 1024)]
     ops = []
     for _ in range(n):
         k = rng.random()
         if k < 0.22:
-            ops.append(("set_speed", rand_motor_value(rng, sp_in, sp_edge, sp_bad)))
+            ops.append(("set_speed", rand_value(rng, sp_in, sp_edge, sp_bad)))
         elif k < 0.30:
-            ops.append(("backward",) if rng.random() < 0.3 else ("backward", rand_motor_value(rng, sp_in, sp_edge, sp_bad)))
+            ops.append(("backward",) if rng.random() < 0.3 else ("backward", rand_value(rng, sp_in, sp_edge, sp_bad)))
         elif k < 0.38:
             ops.append(("stop",))
         elif k < 0.44:
@@ -619,35 +203,12 @@ def random_motor_seq(rng):
         elif k < 0.58:
             ops.append(("invert",))
         elif k < 0.74:
-            ops.append(("ramp", rand_motor_value(rng, sp_in, sp_edge, sp_bad), rand_motor_value(rng, du_in, du_edge, du_bad)))
+            ops.append(("ramp", rand_value(rng, sp_in, sp_edge, sp_bad), rand_value(rng, du_in, du_edge, du_bad)))
         elif k < 0.88:
-            ops.append(("run_for", rand_motor_value(rng, du_in, du_edge, du_bad), rand_motor_value(rng, sp_in, sp_edge, sp_bad)))
+            ops.append(("run_for", rand_value(rng, du_in, du_edge, du_bad), rand_value(rng, sp_in, sp_edge, sp_bad)))
         else:
             ops.append((rng.choice(["get_speed", "get_applied_speed", "is_inverted", "get_mode"]),))
     return ops
-
-
-def random_servo_case(rng):
-    cal = rng.choice(list(CALIBS))
-    ctor, (mina, maxa, minp, maxp) = CALIBS[cal]
-    n = rng.randint(3, 15)
-    ops = []
-    for _ in range(n):
-        k = rng.random()
-        if k < 0.8:
-            name, lo, hi = ("write", mina, maxa) if rng.random() < 0.5 else ("write_us", minp, maxp)
-            x = rng.random()
-            if x < 0.7:
-                v = lo + (hi - lo) * Fr(rng.randint(0, 64), 64)
-                v = as_int_if_whole(v) if rng.random() < 0.3 else v
-            elif x < 0.9:
-                v = rng.choice([lo, hi, lo + EPS, hi - EPS, as_int_if_whole(lo), as_int_if_whole(hi)])
-            else:
-                v = rng.choice([lo - EPS, hi + EPS, lo - 1, hi + 1000, None, True, False, lo - Fr(1, 1 << 30)])
-            ops.append((name, v))
-        else:
-            ops.append((rng.choice(["read", "read_us"]),))
-    return ("servo", ctor, ops)
 
 
 def generate(ctx):
@@ -655,34 +216,40 @@ def generate(ctx):
     rng = ctx.rng
     thorough = ctx.tier == "thorough"
     cases = []
-    # constructors
-    for c in SERVO_BAD_CTORS + SERVO_ODD_CTORS + [v[0] for v in CALIBS.values()]:
-        cases.append(("servo-ctor", ("servo", c, [("read",), ("read_us",), ("write", 1), ("write_us", 1), ("write", None)])))
-    for c in MOTOR_CTORS:
-        cases.append(("motor-ctor", ("motor", c, [("get_mode",), ("set_speed", H), ("invert",), ("stop",)])))
-    # servo: exhaustive pairs over the boundary alphabet of the seed's calibration, from every seed
-    for cal, ctor, pre in servo_seeds():
-        alpha = servo_alphabet(cal)
-        for a in alpha:
-            for b in alpha:
-                cases.append(("servo-pairs", ("servo", ctor, pre + [a, b])))
-    # motor: every single op of the full alphabet from every seed; exhaustive pairs
-    for pre in MOTOR_SEEDS:
-        for a in MOTOR_FULL:
-            cases.append(("motor-singles", ("motor", MOTOR_PINS, pre + [a, ("invert",), ("invert",)])))
-        for a in MOTOR_QUICK:
-            second = MOTOR_FULL if thorough else MOTOR_QUICK
+    for c in CTORS:
+        cases.append(("ctor-table", ("motor", c, [("get_mode",), ("set_speed", H), ("invert",), ("stop",)])))
+    # every single op of the full alphabet from every seed, then invert twice; exhaustive pairs
+    for pre in SEEDS:
+        for a in FULL:
+            cases.append(("singles", ("motor", PINS, pre + [a, ("invert",), ("invert",)])))
+        for a in QUICK:
+            second = FULL if thorough else QUICK
             for b in second:
-                cases.append(("motor-pairs", ("motor", MOTOR_PINS, pre + [a, b])))
+                cases.append(("pairs", ("motor", PINS, pre + [a, b])))
         if thorough:
-            for a in MOTOR_FULL:
-                for b in MOTOR_QUICK:
-                    cases.append(("motor-pairs", ("motor", MOTOR_PINS, pre + [a, b])))
-    # seeded random histories
-    n_rand = 6000 if thorough else 500
-    for _ in range(n_rand):
-        cases.append(("motor-random", ("motor", MOTOR_PINS, random_motor_seq(rng))))
-        cases.append(("servo-random", random_servo_case(rng)))
+            for a in FULL:
+                for b in QUICK:
+                    cases.append(("pairs", ("motor", PINS, pre + [a, b])))
+    for _ in range(8000 if thorough else 700):
+        cases.append(("random", ("motor", PINS, random_seq(rng))))
+    return cases
+
+
+def specials_cases():
+    """Outside the model, inside the guard (no NaN speed, durations that Reduino.Utils.sleep accepts): implementation only,
+    oracle = invariant + atomicity of failing calls; the real Reduino.Utils.sleep validation is active."""
+    big = 10 ** 400
+    ops = [("set_speed", INF), ("set_speed", -INF), ("set_speed", -0.0), ("set_speed", "0.5"), ("set_speed", " -1e3 "), ("set_speed", "abc"),
+           ("set_speed", big), ("set_speed", -big), ("backward", INF), ("backward", -INF), ("backward", "0.25"), ("backward", "x"), ("backward", big),
+           ("ramp", INF, 20), ("ramp", -INF, 0), ("ramp", "0.25", 20), ("ramp", "x", 20), ("ramp", H, "5"), ("ramp", big, 5), ("ramp", H, -INF),
+           ("ramp", H, NAN), ("ramp", H, -0.0), ("ramp", NAN, -1),
+           ("run_for", 20, INF), ("run_for", 0, -INF), ("run_for", 20, "0.5"), ("run_for", 20, "x"), ("run_for", "5", H), ("run_for", 20, big),
+           ("run_for", -INF, H), ("run_for", -0.0, H), ("run_for", -big, H), ("run_for", -1, NAN)]
+    cases = []
+    for pre in ([], [("set_speed", H)], [("invert",), ("set_speed", -H)], [("set_speed", H), ("stop",)]):
+        for o in ops:
+            cases.append(("motor", PINS, pre + [o, ("get_mode",), ("invert",), ("invert",)]))
+    cases += [("motor", c, [("set_speed", H)]) for c in ([2.0, 3, 5], ["2", 3, 5], [NAN, 3, 5], [2, 3, INF], [big, 3, 5], [big, big, 5])]
     return cases
 
 
@@ -690,124 +257,80 @@ def generate(ctx):
 # entry points
 # --------------------------------------------------------------------------
 
-def run_impl(cases):
-    """the real classes on all cases: one runner process per chunk, chunks in parallel"""
-    from concurrent.futures import ThreadPoolExecutor
-    if not cases:
-        return []
-    n = max(1, min(C.NPROC, 8, len(cases) // 200 + 1))
-    size = (len(cases) + n - 1) // n
-    parts = [cases[i:i + size] for i in range(0, len(cases), size)]
-    with ThreadPoolExecutor(max_workers=n) as ex:
-        outs = list(ex.map(lambda part: C.run_impl("c19_motor_impl.py", {"cases": [json_case(c) for c in part]}, timeout=900), parts))
-    return [r for o in outs for r in o]
+def replay_findings(ctx):
+    for f in ctx.findings:
+        if f.get("unit") != UNIT or f.get("kind") == "fixed" or "witness" not in f:
+            continue
+        wc = S.witness_case(f["witness"])
+        r = S.run_impl("motor", [wc], real_sleep=True)[0]
+        if S.probe_oracle(ctx, oracle, wc, r, safety_only=True):
+            ctx.known(f"{f['id']}: {f['what']}")
 
 
-def oracle(ctx, st, case, r):
-    (servo_oracle if case[0] == "servo" else motor_oracle)(ctx, st, case, r)
-
-
-def witness_case(w):
-    """known-finding witness -> abstract case.  {"cls":..., "ctor":[...], "ops":[[name, args...]]} with floats as
-    {"f":[num,den]}, omitted as "ABSENT", None as null."""
-    def val(x):
-        if x == "ABSENT":
-            return ABSENT
-        if isinstance(x, dict):
-            return Fr(x["f"][0], x["f"][1])
-        return x
-    return (w["cls"], [val(a) for a in w["ctor"]], [tuple([o[0]] + [val(a) for a in o[1:]]) for o in w["ops"]])
-
-
-def run_unit(ctx: C.Ctx):
-    st = Stats()
+def run_unit(ctx: C.Ctx) -> dict:
+    st = S.Stats()
     stream_cases = generate(ctx)
     cases = [c for _, c in stream_cases]
     for s, _ in stream_cases:
         st.bump(st.streams, s)
-    impl = run_impl(cases)
+    impl = S.run_impl("motor", cases)
     exe = ctx.exes.get(UNIT)
-    model = ctx.model([wire_case(c) for c in cases], unit=UNIT) if exe else [None] * len(cases)
+    model = ctx.model([S.wire_case(c) for c in cases], unit=UNIT) if exe else [None] * len(cases)
     n_dis = 0
     for case, r, m in zip(cases, impl, model):
-        cls = case[0]
-        st.cases += 1
-        st.bump(st.lengths, len(case[2]))
-        st.bump(st.ctor, cls + ":" + (r["ctor"][0] if r["ctor"][0] == "ok" else r["ctor"][1]))
-        prev = r["ctor"][1] if r["ctor"][0] == "ok" else None
-        for op, rs in zip(case[2], r["steps"]):
-            st.steps += 1
-            st.bump(st.ops, cls + "." + op[0])
-            st.bump(st.outcomes, cls + "." + op[0] + ":" + ("ok" if rs["res"] == "ok" else rs["ret"]))
-            if not op[0].startswith(("get", "is_", "read")) and (rs["res"] == "raise" or rs["snap"] != prev or rs["events"]):
-                st.nontrivial.add((cls, repr(sorted(prev.items())), repr(op)))
-            prev = rs["snap"]
+        S.account(st, case, r)
         oracle(ctx, st, case, r)
         if m is not None and n_dis < 25:
-            if not compare_case(ctx, st, case, m, r):
+            if not S.compare_case(ctx, st, case, m, r):
                 n_dis += 1
+    spec = specials_cases()
+    n_spec = 0
+    for case, r in zip(spec, S.run_impl("motor", spec, real_sleep=True)):
+        n_spec += len(r["steps"])
+        oracle(ctx, st, case, r, safety_only=True)
+    replay_findings(ctx)
 
-    # known findings of this unit: replay each witness on the real classes
-    for f in ctx.findings:
-        if f.get("unit") != UNIT or f.get("kind") == "fixed":
-            continue
-        wc = witness_case(f["witness"])
-        r = run_impl([wc])[0]
-        probe = C.Ctx(ctx.id, ctx.tier, ctx.seed)
-        probe.findings = []
-        oracle(probe, Stats(), wc, r)
-        if probe.failures:
-            ctx.known(f"{f['id']}: {f['what']}")
-
-    samples = [show_case(cases[i]) for i in (0, len(cases) // 3, len(cases) // 2, len(cases) - 1)]
+    samples = [S.show_case(cases[i]) for i in (0, len(cases) // 3, len(cases) // 2, len(cases) - 1)]
+    dist = S.distribution(st)
+    dist["specials_stream_ops_implementation_only"] = n_spec
     return {
         "unit": UNIT,
         "evaluations": st.steps,
         "distinct_nontrivial": len(st.nontrivial),
-        "rule": ("Servo: constructor table (valid, invalid, odd types) + exhaustive op pairs over the boundary alphabet of each of 3 calibrations "
-                 "(default, negative angles, fractional) from 11 seed states + seeded random histories (3-15 ops; 70% in range, 20% boundary, 10% invalid). "
-                 "DCMotor: constructor table + every op of the full alphabet (speeds x durations) followed by invert;invert from 10 seed states + exhaustive "
-                 "pairs (quick: 36x36, thorough: 36x|full| and |full|x36) from the same seeds + seeded random histories. "
-                 "evaluations = method calls executed on the real objects and compared field by field with the model; "
-                 "distinct non-trivial = distinct (class, full state before, op) with a non-getter op that raised, changed state or emitted events."),
+        "rule": ("DCMotor: constructor table (%d pin triples: ints, bools equal to ints, floats, None, duplicates) + every op of the full alphabet "
+                 "(%d ops: speeds -2,-1,-1/2,-1/1024,0,1/1024,1/2,1,2,None,True x durations -1,0,20,100,5/2,None,True) followed by invert;invert from 10 "
+                 "seed states + exhaustive pairs (quick: %dx%d, thorough: %dx%d and %dx%d) from the same seeds + seeded random histories (3-15 ops; 70%% in "
+                 "range, 20%% boundary, 10%% invalid). evaluations = method calls executed on the real objects and compared field by field with the model; "
+                 "distinct non-trivial = distinct (full state before, call) with a non-getter call that raised, changed state or emitted events."
+                 % (len(CTORS), len(FULL), len(QUICK), len(QUICK), len(QUICK), len(FULL), len(FULL), len(QUICK))),
         "samples": samples,
-        "distribution": {"cases": st.cases, "streams": st.streams, "sequence_lengths": dict(sorted(st.lengths.items())),
-                         "constructor_outcomes": st.ctor, "ops": dict(sorted(st.ops.items())),
-                         "outcomes": dict(sorted(st.outcomes.items())), "oracle_invariant_evaluations": st.oracle_checks,
-                         "float_zero_residue_steps_tolerated": st.zero_noise},
-        "guard": "none for this unit (no listed finding); inputs are ints, bools, None and dyadic floats, no IEEE specials",
+        "distribution": dist,
+        "guard": ("speed arguments are not NaN (F-C19-motor-nan-speed) and duration_ms is a finite number below 2**31 that Reduino.Utils.sleep/time.sleep "
+                  "accept (F-C19-motor-nonfinite-duration); model streams use ints, bools, None and dyadic floats only"),
         "unmodelled": [
-            "binary64 rounding: model floats are exact rationals; compared to 1e-9 (a one-ulp excursion of a servo bound, or a ramp ending 1e-17 away from 0 with mode 'drive', is float rounding, tolerated and counted in float_zero_residue_steps_tolerated)",
-            "IEEE specials (NaN, inf), ints beyond 2**53 and OverflowError of float(); numeric strings accepted by float() in DCMotor._clamp_speed; non-numeric objects other than None",
-            "__repr__ of both classes",
+            "binary64 rounding: model floats are exact rationals; compared to 1e-9 (a ramp ending 1e-17 away from 0 with mode 'drive' is float rounding, tolerated and counted in float_zero_residue_steps_tolerated)",
+            "IEEE specials (inf, -0.0), numeric strings accepted by float() in DCMotor._clamp_speed, other strings and ints beyond the float range: sent to the implementation only, oracle = invariant + atomicity of failing calls",
+            "the wait itself: the package-level sleep is replaced by a recorder (as tests/test_actuators.py does); in the specials stream and the finding replays the recorder additionally runs the real Reduino.Utils.sleep validation and hands non-finite durations to the real time.sleep",
+            "DCMotor.__repr__ (debug helper)", "keyword-argument calls (C08's subject); direct writes to the attributes; a patched _RAMP_STEPS <= 0 (the model follows the generated constant)",
         ],
         "trusted_base": [
-            "harness/gen/c19_motor.py (reads DCMotor._RAMP_STEPS, the Servo constructor defaults and the public method signatures from the current source; fail-closed)",
-            "harness/impl/c19_motor_impl.py (drives the real classes; records sleeps through Reduino.Actuators.sleep and level events by wrapping Servo.write/write_us and DCMotor._apply_speed/stop/coast)",
-            "harness/props/c19_motor.py (generators, comparison with 1e-9 float tolerance, oracle)",
+            "harness/gen/c19_motor.py (reads DCMotor._RAMP_STEPS, the default of backward() and the public method signatures from the current source; fail-closed)",
+            "harness/impl/c19_motor_impl.py + c19_sm_runner.py (drive the real class; sleeps recorded through Reduino.Actuators.sleep, level events by wrapping DCMotor._apply_speed/stop/coast)",
+            "harness/props/c19_motor.py + harness/c19_sm.py (generators, comparison with 1e-9 float tolerance, oracle)",
         ],
         "assumptions": ["Python floats behave as exact rationals up to 1e-9 on the generated dyadic inputs (measured by the correspondence)",
-                        "the last-command ghost changes only on successful stop/run_for/set_speed/backward/coast/invert/ramp (DESIGN.md A.4)"],
+                        "the last-command ghost changes only on successful stop/run_for/set_speed/backward/coast/invert/ramp (DESIGN.md A.4; proved for the model as C19_motor_ghost_step, compared per op with the history of real outcomes)",
+                        "DCMotor objects are only driven through their public methods"],
     }
 
 
-def from_json_case(j):
-    def val(t):
-        if t is None:
-            return ABSENT
-        return {"i": lambda: int(t[1]), "b": lambda: bool(t[1]), "o": lambda: None, "f": lambda: Fr(t[1], t[2])}[t[0]]()
-    return (j["cls"], [val(a) for a in j["ctor"]], [tuple([o[0]] + [val(a) for a in o[1:]]) for o in j["ops"]])
-
-
-def replay(data):
-    """./check replay <file>: re-run the recorded case on the real classes and evaluate the oracle again."""
-    case = from_json_case(data["case"]["json"])
-    r = run_impl([case])[0]
-    probe = C.Ctx(data.get("property", "C19"), "quick", 0)
-    probe.findings = []
-    oracle(probe, Stats(), case, r)
-    for f in probe.failures:
-        print("REPRODUCED:", f["what"], "| expected", f["expected"], "| observed", f["observed"])
-    if not probe.failures:
-        print("not reproduced on the current tree")
-    return 1 if probe.failures else 0
+def replay_unit(data) -> int:
+    """./check replay <file>: re-run the recorded case on the real class and evaluate the oracle again."""
+    cj = (data.get("case") or {}).get("json") if isinstance(data.get("case"), dict) else None
+    if not cj or cj.get("cls") != "motor":
+        return 0
+    case = S.from_json_case(cj)
+    r = S.run_impl("motor", [case], real_sleep=True)[0]
+    fails = S.probe_oracle(data.get("property", "C19"), oracle, case, r)
+    print(json.dumps({"implementation": r["steps"][-1] if r["steps"] else r["ctor"], "oracle_failures": fails}, indent=1, default=str)[:4000])
+    return 1 if fails else 0
